@@ -65,3 +65,7 @@ VMap.FIELDS["Format.spec"] = {"hbits": "int", "pbits": "int", "rhbits": "int", "
 field("Tensor.ranks", "list[Rank]")
 field("Tensor.g_rank_ids", "list[str]")     # ghost: what getRankIds() returns (one id per rank, in order)
 field("Fiber.g_shape1", "opt[int]")         # ghost: getShape(all_ranks=False) of this fiber (rank shape delegation)
+
+# model/intersect.py
+field("LeaderFollowerIntersector.num_intersects", "int")
+field("LeaderFollowerIntersector.started", "bool")
